@@ -1,6 +1,7 @@
 /- Property C07: the property theorems (and nothing else). -/
 import Frugal.Proofs.BitsetLemmas
 import Frugal.Proofs.BuildCacheLemmas
+import Frugal.Proofs.BuildCacheMixed
 import Frugal.Props.Inst.F_facts_buildProtocol
 import Frugal.Props.Inst.F_facts_rollback
 import Frugal.Props.Inst.F_valid_bitset
@@ -39,6 +40,34 @@ theorem outcome_is_reachability (R : List (Option SDesc)) (hist : List Nat) (sid
 theorem failed_use_leaves_no_trace (R : List (Option SDesc)) (sid : Nat) (st : CacheSt)
     (h : (useType R sid st).1 = false) : (useType R sid st).2 = st :=
   useType_fail_unchanged R sid st h
+
+/-- the build runs user code (`InitDefault`, called to read the declared defaults), which may fail —
+    panic — on one call and work on the next (D21: the rollback used to run on the error return only).
+    A use that fails while the structs `bs` fail leaves no trace either, so every later call, under
+    whatever the user code does then, is the call made in the state before -/
+theorem failing_user_code_leaves_no_trace (R R' : List (Option SDesc)) (bs : List Nat) (sid sid' : Nat)
+    (st : CacheSt) (h : (useType (failing R bs) sid st).1 = false) :
+    useType R' sid' (useType (failing R bs) sid st).2 = useType R' sid' st := by
+  rw [useType_fail_unchanged _ sid st h]
+
+/-- … and a use that succeeds while some user code fails is the use it is when nothing fails (it never
+    needed a failing struct) -/
+theorem succeeding_use_ignores_failing_user_code (R : List (Option SDesc)) (bs : List Nat) (sid : Nat)
+    (st : CacheSt) (h : (useType (failing R bs) sid st).1 = true) :
+    useType (failing R bs) sid st = useType R sid st := useType_failing_ok R bs sid st h
+
+/-- hence `outcome_independent_of_history` for histories in which **every call comes with its own set of
+    structs whose `InitDefault` fails during it**: afterwards a use has the outcome it has in a fresh
+    process -/
+theorem outcome_independent_of_history_with_failing_user_code (R : List (Option SDesc))
+    (hist : List (Nat × List Nat)) (sid : Nat) :
+    (useType R sid (useMixed R hist {})).1 = (useType R sid {}).1 := mixed_history_independent R hist sid
+
+/-- not vacuous: `Outer{*Inner, *Leaf}` (the shape of D21) while `Leaf` fails -/
+example : (useType (failing
+    [ some { fields := [{ id := 1, req := .optional, ty := .ptr (.strct 1) },
+                        { id := 2, req := .optional, ty := .ptr (.strct 2) }] },
+      some { fields := [] }, some { fields := [] } ] [2]) 0 {}).1 = false := by decide
 
 /-- after any history the caches hold only types all of whose dependencies resolve: a descriptor
     met in a cache is a complete one -/
